@@ -75,4 +75,54 @@ ESCAPE_RE = re.compile('|'.join(""",
             self._value[:] = [c for i, c in enumerate(self._value) if i == 0 or c._real_name != self._value[i - 1]._real_name]
         self._serialise(file, indent, open_brace, close_brace, start_indent)""",
          note='serialise with a wide indent drops adjacent duplicate names from the tree it is given'),
+    # ---- C12
+    dict(id='c12-toctou-tempname', prop='C12', file='src/srctools/__init__.py',
+         old="""            try:
+                if self.is_bytes:  # type checkers can't narrow self from this!
+                    self.temp = self._temp_name.open('xb')  # type: ignore
+                else:
+                    self.temp = self._temp_name.open('xt', encoding=self.encoding)  # type: ignore
+                break
+            except FileExistsError:
+                pass""",
+         new="""            if self._temp_name.exists():
+                continue
+            if self.is_bytes:  # type checkers can't narrow self from this!
+                self.temp = self._temp_name.open('wb')  # type: ignore
+            else:
+                self.temp = self._temp_name.open('wt', encoding=self.encoding)  # type: ignore
+            break""",
+         note='check-then-create instead of exclusive create: only a two-writer interleaving shows it'),
+    dict(id='c12-replace-before-close', prop='C12', file='src/srctools/__init__.py',
+         old="""            # Delegate down to close the file like normal.
+            if self.temp is not None:""",
+         new="""            if exc_type is None and self._temp_name is not None and self.temp is not None:
+                self._temp_name.replace(self.filename)
+                self.temp.__exit__(exc_type, exc_value, tback)
+                self.temp = None
+                return None
+            # Delegate down to close the file like normal.
+            if self.temp is not None:""",
+         note='rename happens before the buffered data is flushed: a kill in between leaves a prefix'),
+    dict(id='c12-no-cleanup-on-body-exc', prop='C12', file='src/srctools/__init__.py',
+         old="""        # An exception occurred in the body, clean up.
+        try:
+            self._temp_name.unlink()
+        except FileNotFoundError:
+            pass""",
+         new="""        # An exception occurred in the body, clean up.
+        if self.filename.exists():
+            try:
+                self._temp_name.unlink()
+            except FileNotFoundError:
+                pass""",
+         note='temp file only removed when the destination already exists'),
+    dict(id='c12-truncate-dest-first', prop='C12', file='src/srctools/__init__.py',
+         old="""                # No exception, commit changes
+                self._temp_name.replace(self.filename)""",
+         new="""                # No exception, commit changes
+                if self.filename.exists() and self._temp_name.stat().st_size > 16384:
+                    self.filename.unlink()
+                self._temp_name.replace(self.filename)""",
+         note='large files: destination removed before the rename, a kill in between loses both'),
 ]
